@@ -66,7 +66,8 @@ def finish (g : PkgG) : PkgG :=
   { g with parts := g.parts.reverse, badXml := g.badXml.reverse, defaults := g.defaults.reverse,
            overrides := g.overrides.reverse, rels := g.rels.reverse, sheets := g.sheets.reverse,
            dnames := g.dnames.reverse, rids := g.rids.reverse, wss := g.wss.reverse,
-           calcs := g.calcs.reverse, tables := g.tables.reverse, comments := g.comments.reverse }
+           calcs := g.calcs.reverse, tables := g.tables.reverse, comments := g.comments.reverse,
+           childOrder := g.childOrder.reverse }
 
 def closeWs (st : St) : St :=
   match st.ws with
@@ -119,6 +120,9 @@ def gStep (st : St) (w : List String) : Option (St × String) :=
     | some fo, some fi, some bo, some cs, some dx, some nf, some xfs =>
       some ({ st with g := { g with styles := ⟨true, nf, fo, fi, bo, cs, dx, xfs⟩ } }, ".")
     | _, _, _, _, _, _, _ => none
+  | "g.order" :: p :: root :: kids => match unhexS p, unhexS root, allSome (kids.map unhexS) with
+    | some p, some root, some kids => some ({ st with g := { g with childOrder := (p, root, kids) :: g.childOrder } }, ".")
+    | _, _, _ => none
   | ["g.sst", n] => (nat? n).map fun n => ({ st with g := { g with sst := some n } }, ".")
   | ["g.cc", r, i] => match unhexS r, parseInt? i with
     | some r, some i => some ({ st with g := { g with calcs := (r, i) :: g.calcs } }, ".")
